@@ -71,6 +71,9 @@ pub enum Dev {
     /// repeat the reading three positions back: a zero delta when this is a probe reading
     /// (probe readings are 3 apart in a collection and in test_timer)
     Repeat3,
+    /// repeat the reading two positions back: a zero delta at the *priming* probe of a collection
+    /// (reading 2 against the priming reading 0)
+    Repeat2,
     /// the 3-reading delta of the window before the previous one (d, x, d)
     SameDeltaSkip,
     /// same 3-reading delta as the previous window (second difference 0 at a probe)
@@ -83,12 +86,18 @@ pub enum Dev {
     Jump31,
     Jump32,
     Jump32p7,
+    /// the probe reading three positions back plus 2^32 / 3*2^32: the raw difference of the two probe
+    /// readings is a non-zero multiple of 2^32, the 32-bit delta is zero
+    ProbePlus32,
+    ProbePlus3x32,
+    /// the same against the priming reading (two positions back)
+    PrimePlus32,
     Wrap,
     /// a zero reading
     Zero,
 }
 
-pub const DEV_MENU: [Dev; 12] = [Dev::Repeat, Dev::Repeat3, Dev::SameDeltaSkip, Dev::SameDelta, Dev::Arith, Dev::BackOne, Dev::BackFar, Dev::Jump31m1, Dev::Jump31, Dev::Jump32, Dev::Jump32p7, Dev::Wrap];
+pub const DEV_MENU: [Dev; 16] = [Dev::Repeat, Dev::Repeat2, Dev::Repeat3, Dev::SameDeltaSkip, Dev::SameDelta, Dev::Arith, Dev::BackOne, Dev::BackFar, Dev::Jump31m1, Dev::Jump31, Dev::Jump32, Dev::Jump32p7, Dev::ProbePlus32, Dev::ProbePlus3x32, Dev::PrimePlus32, Dev::Wrap];
 
 /// Apply deviations (position, kind), in increasing position order, to the increments of `base`:
 /// the deviating reading is computed from the readings before it, later readings keep the base
@@ -103,6 +112,7 @@ pub fn deviate(base: &[u64], devs: &[(usize, Dev)]) -> Vec<u64> {
             let back = |k: usize| if i >= k { t[i - k] } else { 0 };
             v = match kind {
                 Dev::Repeat => prev,
+                Dev::Repeat2 => back(2),
                 Dev::Repeat3 => back(3),
                 Dev::SameDeltaSkip => back(3).wrapping_add(back(6).wrapping_sub(back(9))),
                 Dev::SameDelta => back(3).wrapping_add(back(3).wrapping_sub(back(6))),
@@ -117,6 +127,9 @@ pub fn deviate(base: &[u64], devs: &[(usize, Dev)]) -> Vec<u64> {
                 Dev::Jump31 => prev.wrapping_add(1 << 31),
                 Dev::Jump32 => prev.wrapping_add(1 << 32),
                 Dev::Jump32p7 => prev.wrapping_add((1 << 32) + 7),
+                Dev::ProbePlus32 => back(3).wrapping_add(1 << 32),
+                Dev::ProbePlus3x32 => back(3).wrapping_add(3 << 32),
+                Dev::PrimePlus32 => back(2).wrapping_add(1 << 32),
                 Dev::Wrap => u64::MAX - 2,
                 Dev::Zero => 0,
             };
